@@ -1,9 +1,9 @@
 SPECIFICATION Spec
 CONSTANTS
   Machine = "log"
-  CrashPoints = TRUE
+  CrashPoints = FALSE
   RollFaults = FALSE
-  RollKills = FALSE
+  RollKills = TRUE
   MaxCount = 3
   Limit = 4
   MaxWrite = 6
@@ -18,6 +18,7 @@ CONSTANTS
   PreDumps = 5
   MaxIds = 12
 CONSTRAINT Bounded
-INVARIANTS TypeOK LogCountBoundCrash LogSizeBound LogSizeStrict
-PROPERTIES LogCrashRecovers
+VIEW CountView
+INVARIANTS TypeOK LogCountBound LogCountRecovered LogCountBoundCrash LogSizeBound LogSizeStrict
+PROPERTIES LogNoGrowthWithoutRoll LogNoGrowthWhileRollFails
 CHECK_DEADLOCK FALSE
